@@ -72,3 +72,78 @@ Proof.
     eapply resolve_string_has; eauto.
   - inversion H; subst. cbn. constructor; [exact Hu8 | constructor].
 Qed.
+
+(** ** locality and monotonicity of the registry reads (ingredients of C09's M1/M2 and of C19) *)
+(** name resolution only looks at which paths exist *)
+Theorem resolve_string_keys R R' scope name :
+  (forall p, reg_has R p = reg_has R' p) -> resolve_string R scope name = resolve_string R' scope name.
+Proof.
+  intros H. unfold resolve_string.
+  assert (filter (reg_has R) scope = filter (reg_has R') scope) as -> by (apply filter_ext; auto).
+  assert (filter (fun p => negb (reg_has R p)) scope = filter (fun p => negb (reg_has R' p)) scope) as ->
+      by (apply filter_ext; intros; now rewrite H).
+  destruct (find _ (rev _)); [reflexivity|].
+  f_equal. clear - H. induction (map _ _) as [|x l IH]; cbn [find]; [reflexivity|].
+  rewrite H. destruct (reg_has R' x); [reflexivity | exact IH].
+Qed.
+
+Theorem resolve_gtype_keys R R' scope : (forall p, reg_has R p = reg_has R' p) ->
+  forall t, resolve_gtype R scope t = resolve_gtype R' scope t.
+Proof.
+  intros H. induction t; cbn [resolve_gtype]; try (rewrite IHt; reflexivity); [|reflexivity].
+  apply resolve_string_keys. exact H.
+Qed.
+
+(** ... and only at the names the module's scope can form: a name is looked up as an imported type
+    path, at the root, in the module itself, and in the imported modules -- nowhere else *)
+Definition lookup_candidates (scope : list path) (name : string) : list path :=
+  scope ++ [name] :: map (fun ip => path_join ip name) scope.
+
+Theorem resolve_string_local R R' scope name :
+  (forall p, In p (lookup_candidates scope name) -> reg_has R p = reg_has R' p) ->
+  resolve_string R scope name = resolve_string R' scope name.
+Proof.
+  intros H. unfold resolve_string, lookup_candidates in *.
+  assert (Hs : forall p, In p scope -> reg_has R p = reg_has R' p) by (intros; apply H; apply in_or_app; now left).
+  assert (filter (reg_has R) scope = filter (reg_has R') scope) as E1.
+  { clear - Hs. induction scope as [|x l IH]; cbn [filter]; [reflexivity|].
+    rewrite (Hs x) by now left. rewrite IH by (intros; apply Hs; now right). reflexivity. }
+  assert (filter (fun p => negb (reg_has R p)) scope = filter (fun p => negb (reg_has R' p)) scope) as E2.
+  { clear - Hs. induction scope as [|x l IH]; cbn [filter]; [reflexivity|].
+    rewrite (Hs x) by now left. rewrite IH by (intros; apply Hs; now right). reflexivity. }
+  rewrite E1, E2. destruct (find _ (rev _)); [reflexivity|]. f_equal.
+  assert (Hj : forall p, In p ([] :: filter (fun p => negb (reg_has R' p)) scope) ->
+                         reg_has R (path_join p name) = reg_has R' (path_join p name)).
+  { intros p [<-|Hin]; apply H; apply in_or_app; right.
+    - left. reflexivity.
+    - right. apply (in_map (fun ip => path_join ip name)). apply filter_In in Hin. tauto. }
+  revert Hj. generalize ([] :: filter (fun p => negb (reg_has R' p)) scope) as l.
+  induction l as [|x l IH]; intros Hj; cbn [map find]; [reflexivity|].
+  rewrite (Hj x) by now left. destruct (reg_has R' _); [reflexivity|]. apply IH. intros; apply Hj; now right.
+Qed.
+
+(** sizes and alignments only grow more defined: what is resolved stays what it is *)
+Definition reg_extends (R R' : registry) : Prop :=
+  reg_ptr R = reg_ptr R' /\
+  forall p it, reg_get R p = Some it -> item_is_resolved it = true -> reg_get R' p = Some it.
+
+Theorem size_of_mono R R' : reg_extends R R' -> forall t s, size_of R t = Some s -> size_of R' t = Some s.
+Proof.
+  intros [Hp He]. induction t as [p|t IH|t IH|t IH n|c args ret]; intros s H; cbn [size_of] in *;
+    try (rewrite <- Hp; exact H).
+  - destruct (reg_get R p) as [it|] eqn:E; [|discriminate].
+    unfold item_size, item_resolved in H. destruct (it_state it) as [d|r] eqn:Es; [discriminate|].
+    rewrite (He p it E); [unfold item_size, item_resolved; now rewrite Es|].
+    unfold item_is_resolved. now rewrite Es.
+  - destruct (size_of R t) as [s0|]; [|discriminate]. rewrite (IH s0 eq_refl). exact H.
+Qed.
+
+Theorem align_of_mono R R' : reg_extends R R' -> forall t a, align_of R t = Some a -> align_of R' t = Some a.
+Proof.
+  intros [Hp He]. induction t as [p|t IH|t IH|t IH n|c args ret]; intros a H; cbn [align_of] in *;
+    try (rewrite <- Hp; exact H); auto.
+  destruct (reg_get R p) as [it|] eqn:E; [|discriminate].
+  unfold item_align, item_resolved in H. destruct (it_state it) as [d|r] eqn:Es; [discriminate|].
+  rewrite (He p it E); [unfold item_align, item_resolved; now rewrite Es|].
+  unfold item_is_resolved. now rewrite Es.
+Qed.
